@@ -194,6 +194,10 @@ func (q *Queue) Add(elem *queue.Elem) (err error) {
 			}
 			// non-inflight message
 			if i >= q.current {
+				if e.ID() != 0 {
+					// an in-flight message that has not been re-read yet after Init: it is not a queued message
+					continue
+				}
 				if i == q.current {
 					frontBytes = b
 					frontElem = e
